@@ -155,8 +155,9 @@ Fixpoint remove_addr (a : N) (l : list N) : list N :=
 Definition bucket (s : state) (idx : N) : list N := nth (N.to_nat idx) (partial s) [].
 
 (* the k objects of a slab in hand-out order: the LAST carved object is the head of the list *)
-Fixpoint carve (base item : N) (k : nat) : list N :=
-  match k with O => [] | S k' => (base + N.of_nat k' * item) :: carve base item k' end.
+Fixpoint objs_up (a item : N) (k : nat) : list N :=       (* carving order: ascending addresses *)
+  match k with O => [] | S k' => a :: objs_up (a + item) item k' end.
+Definition carve (base item : N) (k : nat) : list N := rev_append (objs_up base item k) [].
 
 Definition pcb (c : cfg) (l : list callback) : list callback := if poison c then l else [].
 
@@ -235,10 +236,10 @@ Definition construct_slab (c : cfg) (idx r : N) : slab * list callback :=
   let item := b2s idx in
   let fr := frame_of_map c r in
   let base := fr + overhead c item in
-  let objs := carve base item (N.to_nat (nobj c item)) in
-  (mkSlab fr r (slab_map_len c) idx objs 0,
+  let up := objs_up base item (N.to_nat (nobj c item)) in
+  (mkSlab fr r (slab_map_len c) idx (rev_append up []) 0,
    pcb c [CUnpoison fr (hdr_slab c)] ++ [CAccess true fr (hdr_slab c)]
-   ++ flat_map (fun o => pcb c [CUnpoison o 8] ++ [CAccess true o 8]) (rev objs)).
+   ++ flat_map (fun o => pcb c [CUnpoison o 8] ++ [CAccess true o 8]) up).
 
 (* body under _tree_mutex *)
 Definition account_add (s : state) (d : N) : state :=
@@ -369,9 +370,17 @@ Definition free_ (c : cfg) (s : state) (p : N) (szchk : option N) : state * resu
 (* ---------------------------------------------------------------------------------------- *)
 (* realloc                                                                                   *)
 (* ---------------------------------------------------------------------------------------- *)
+(* bytes at offsets >= n stop being the owner's (in-place shrink) *)
+Fixpoint clip_log (n : N) (log : list seg) : list seg :=
+  match log with
+  | [] => []
+  | (off, len, tag) :: r =>
+    if off <? n then (off, N.min len (n - off), tag) :: clip_log n r else clip_log n r
+  end.
+
 Definition set_req (s : state) (p n : N) : state :=
   mkState (slabs s) (larges s) (partial s) (used s)
-          (upd_blk p (fun b => mkBlk (bk_p b) n (bk_size0 b) n (bk_log b)) (live s)) (nlive s) (peak s).
+          (upd_blk p (fun b => mkBlk (bk_p b) n (bk_size0 b) n (clip_log n (bk_log b))) (live s)) (nlive s) (peak s).
 
 Definition move_log (s : state) (p q : N) : state :=
   match find_blk p (live s) with
